@@ -1,0 +1,8 @@
+//go:build !verif
+
+// Package verifhook holds verification-only instrumentation. Without the 'verif' build tag
+// every hook is an identity function that the compiler inlines away.
+package verifhook
+
+// Permute returns s unchanged.
+func Permute[T any](site string, s []T) []T { return s }
